@@ -77,6 +77,24 @@ class Driver:
         self.TransportTuning = TransportTuning
         self.requests = {}      # q -> Request
         self.pipes = {}         # id(pipe) -> q
+        # server side: a site whose handlers do nothing by themselves; the script makes responder k put responses into its pipe
+        from aiocoap import interfaces
+        drv = self
+        self.spipes = {}        # k -> the pipe TokenManager.process_request created;  id(pipe) -> k in self.skeys
+        self.skeys = {}
+        class Site(interfaces.Resource):
+            async def render_to_pipe(s, pipe):
+                await loop.create_future()          # until cancelled through the pipe's loss of interest
+            async def render(s, request): raise NotImplementedError
+            async def needs_blockwise_assembly(s, request): return False
+        self.ctx.serversite = Site()
+        real_render_to_pipe = self.ctx.render_to_pipe
+        def render_to_pipe(pipe):
+            k = int(pipe.request.payload.decode()[1:])
+            drv.spipes[k] = pipe; drv.skeys[id(pipe)] = k
+            real_render_to_pipe(pipe)
+            pipe.on_interest_end(lambda k=k: trace.append(["ended", k]))     # non-interest callback: observes, changes nothing
+        self.ctx.render_to_pipe = render_to_pipe
 
     def addr(self, r):
         if r not in self.addrs: self.addrs[r] = self.simnet.Addr(r)
@@ -141,6 +159,21 @@ class Driver:
             if d >= 0 and (nd is None or nd > loop.now_us() + d): loop.advance(d)
         elif k == "refuse":
             (self.refusing.add if ev[2] else self.refusing.discard)(ev[1])
+        elif k == "serve":
+            _, kk, r, tok, mt = ev
+            m = Message(code=aiocoap.GET, _mtype=mt, _mid=(40000 + kk) & 0xFFFF, _token=_tok_bytes(tok), payload=b"k%d" % kk)
+            self.guarded(self.tman.process_request, Message.decode(m.encode(), self.addr(r)))
+        elif k == "serve_pb":
+            # a CON request arriving as a datagram: dedup + piggy-back opportunity (EMPTY_ACK_DELAY timer) + process_request
+            _, kk, r, tok, mid = ev
+            m = Message(code=aiocoap.GET, _mtype=CON, _mid=mid, _token=_tok_bytes(tok), payload=b"k%d" % kk)
+            self.guarded(self.mman.dispatch_message, Message.decode(m.encode(), self.addr(r)))
+        elif k == "respond":
+            _, j, kk, last, maxre = ev
+            pipe = self.spipes.get(kk)
+            if pipe is not None:
+                m = Message(code=aiocoap.CONTENT, payload=b"p%d" % j, transport_tuning=self.tuning(6, maxre))
+                self.guarded(pipe.add_response, m, bool(last))
         elif k == "cancel":
             req = self.requests.get(ev[1])
             if req is not None:
@@ -166,11 +199,12 @@ class Driver:
             "backlogs": sorted([r.name, [_tag(m.payload) for m, _ in q]] for r, q in mman._backlogs.items()),
             "outgoing": [self.pipes.get(id(p), -1) for p in tman.outgoing_requests.values()],
             "next_mid": mman.message_id, "token": tman._token,
+            "incoming": [self.skeys.get(id(p), -1) for p, _ in tman.incoming_requests.values()],
         }
         return {"steps": steps, "final": final}
 
 
-def sub_tag(kind, n): return ("q%d" if kind == "req" else "s%d") % n
+def sub_tag(kind, n): return {"req": "q%d", "raw": "s%d", "respond": "p%d"}[kind] % n
 
 
 # ------------------------------------------------------------------------------------------------ generator-side bookkeeping
@@ -179,7 +213,8 @@ class Sim:
     which token belongs to which request).  It never judges anything."""
     def __init__(s, mid0, token0, rand):
         s.mid = mid0; s.tok = token0; s.rand = list(rand); s.now = 0; s.seq = 0
-        s.ex = {}; s.q = {}; s.out = {}; s.mids = {}; s.fires_needed = 0; s.refusing = set()
+        s.responder_of = {}
+        s.ex = {}; s.q = {}; s.out = {}; s.mids = {}; s.fires_needed = 0; s.refusing = set(); s.served = {}
     def open(s, r, sub, mid, maxre):
         t = s.rand.pop(0) if s.rand else 2000000
         s.ex[r] = dict(mid=mid, due=s.now + t, seq=s.seq, timeout=t, counter=0, maxre=maxre, sub=sub); s.seq += 1
@@ -204,10 +239,12 @@ class Sim:
     def fail(s, r):
         s.ex.pop(r, None); s.q.pop(r, None)
         for q in [q for q, (t, rr) in s.out.items() if rr == r]: del s.out[q]
+        for k in [k for k, v in s.served.items() if v[0] == r]: del s.served[k]
     def recv(s, r, mt, mid, tok=None):
         if mt in (ACK, RST) and r in s.ex and s.ex[r]["mid"] == mid:
             sub = s.ex[r]["sub"]
             if mt == RST and sub[0] == "req": s.out.pop(sub[1], None)
+            if mt == RST and sub[0] == "respond": s.served.pop(s.responder_of.get(sub[1]), None)
             s.close_ok(r)
         if tok is not None and mt != RST:
             for q, (t, rr) in list(s.out.items()):
@@ -233,6 +270,16 @@ class Sim:
         elif k == "adv": s.advance(ev[1])
         elif k == "cancel": s.out.pop(ev[1], None)
         elif k == "refuse": (s.refusing.add if ev[2] else s.refusing.discard)(ev[1])
+        elif k == "serve":
+            for kk in [kk for kk, v in s.served.items() if v[0] == ev[2] and v[1] == ev[3]]: del s.served[kk]
+            s.served[ev[1]] = (ev[2], ev[3], ev[4])
+        elif k == "respond":
+            v = s.served.get(ev[2])
+            if v is not None:
+                s.responder_of[ev[1]] = ev[2]
+                s.submit("respond", ev[1], v[0], 7 if v[2] == NON else 8, ev[4])
+                if ev[3]: s.served.pop(ev[2], None)
+    responder_of = {}
 
 
 def concretize(sym, sim, ids, rng=None):
@@ -242,6 +289,14 @@ def concretize(sym, sim, ids, rng=None):
         ids[0] += 1
         if k == "req": return ["req", ids[0], sym[1], sym[2], sym[3]]
         return ["raw", ids[0], sym[1], sym[2], sym[3], sym[4]]
+    if k == "serve":        # ["serve", r, mt]: a new responder for a fresh token (or, sometimes, the token of a live one)
+        ids[0] += 1
+        return ["serve", ids[0], sym[1], sym[3] if len(sym) > 3 else 1000 + ids[0], sym[2]]
+    if k == "respond":      # ["respond", which, last, maxre]: the which-th live responder (or a dead one) produces a response
+        ids[0] += 1
+        live = sorted(sim.served)
+        kk = live[sym[1] % len(live)] if live else max(1, ids[0] - 1)
+        return ["respond", ids[0], kk, bool(sym[2]), sym[3]]
     if k in ("ack", "rst"):
         r = sym[1]; mid = sim.ex[r]["mid"] if r in sim.ex else (sim.mids.get(r, [sim.mid])[-1])
         return ["empty", r, ACK if k == "ack" else RST, mid]
@@ -272,7 +327,9 @@ class C14(fw.Property):
                   "ends the exchange ahead by ACK/RST, dropped (with its request failed) exactly on give-up/transport error (a refusal is that very step), "
                   "otherwise stays; NON and CON-to-idle-remote go out in the submission step; events of one remote leave the others untouched; liveness for "
                   "every schedule: a held-back message has left its queue after `budget` progress steps of the exchange ahead (retransmission budget as measure), "
-                  "hence eventually under the explicit fairness hypothesis `fair`.")
+                  "hence eventually under the explicit fairness hypothesis `fair`. Round 5: server-side responders (incoming_requests, stoppers) are modelled: when an endpoint "
+                  "fails every responder serving it is stopped (C14_dropped_response_stopped); the trichotomy, frame and liveness bound hold over step_ev/rrun for every "
+                  "remote that is not itself refused (C14_general_*); a refused notification raises TypeError in Pipe._add_event (open finding C14-R3, refutation witness).")
     level_note = ("Trusted: Coq kernel + vm_compute; the hand-written models' correspondence with messagemanager.py/tokenmanager.py (sampled event scripts, "
                   "compared output-by-output and on the final dict contents); the virtual loop as ideal timer service. Not modelled: incoming requests "
                   "(dedup, piggy-back), multicast, shutdown, observe; 2^64 token wrap collisions. The release/drop/held trichotomy, the frame theorems and the liveness "
@@ -290,10 +347,11 @@ class C14(fw.Property):
                     "labels of fired timers are read from the timer handle (closure defaults of MessageManager._schedule_retransmit.retr)"]
     assumptions = ["tokens do not wrap around 2^64 within one run while requests are outstanding (dict key replacement not modelled)",
                    "unicast remotes; message manager not shut down; no incoming requests (no piggy-back opportunities, no duplicate store)",
+                   "server side: requests enter at TokenManager.process_request (past dedup / piggy-back bookkeeping) except in the oracle-only piggyback stream; handlers are driven by the script",
                    "a refusing transport is the fake interface's send() calling MessageManager.dispatch_error(OSError(ENETUNREACH), remote) before returning, as udp6's error_received does from inside sendmsg"]
 
     # ---------------------------------------------------------------- generator
-    def _random_script(self, rng, refusal=False):
+    def _random_script(self, rng, refusal=False, server=False):
         nrem = rng.choice([1, 2, 2, 3, 4]); hot = 0
         mid0 = rng.choice([0, 7, rng.randint(0, 65535), 65533, 65534, 65535])
         token0 = rng.choice([0, 0, rng.randint(0, 70000), 2 ** 64 - 3, 255, 65535])
@@ -310,6 +368,11 @@ class C14(fw.Property):
                 # the transport starts / stops refusing datagrams to a remote (mostly the busy one; mostly switched off again soon)
                 r = busy() if rng.random() < 0.7 else remote()
                 sym = ["refuse", r, (r not in sim.refusing) if rng.random() < 0.85 else rng.random() < 0.5]
+            elif server and rng.random() < 0.3:
+                if not sim.served or rng.random() < 0.25:
+                    live = sorted(sim.served)
+                    sym = ["serve", remote(), rng.choice([CON, CON, CON, NON])] + ([1000 + rng.choice(live)] if live and rng.random() < 0.15 else [])
+                else: sym = ["respond", rng.randrange(8), rng.random() < 0.25, rng.choice(maxre_pool)]
             elif x < 0.26: sym = ["req", remote(), rng.choice([0, 0, 0, 4, 6]), rng.choice(maxre_pool)]
             elif x < 0.32: sym = ["req", remote(), rng.choice([1, 5]), rng.choice(maxre_pool)]
             elif x < 0.42: sym = ["raw", remote(), rng.choice([0, 0, 1, 4, 5, 6, 7, 8]), rng.randint(1, 300), rng.choice(maxre_pool)]
@@ -371,7 +434,23 @@ class C14(fw.Property):
                 events += [["fire"]] * sim.fires_needed
                 yield {"mid0": 65535, "token0": 0, "rand": [], "events": events, "closed": True}
 
+    def _piggyback_cases(self, rng, n):
+        """clause 5 for responses that can ride on the ACK: remote busy (exchange open, queue of 0..3), then a CON request from it is
+        answered at once; no timer is fired in this stream (the piggy-back and dedup timers are not modelled)"""
+        for _ in range(n):
+            r = rng.randrange(2); events = []; ids = 0
+            for _ in range(rng.randint(1, 4)):
+                ids += 1; events.append(["req", ids, r if rng.random() < 0.8 else 1 - r, rng.choice([0, 0, 6]), rng.choice([0, 1, 2])])
+            ids += 1; kk = ids; events.append(["serve_pb", kk, r, 500 + kk, rng.randint(0, 65535)])
+            if rng.random() < 0.3: ids += 1; events.append(["req", ids, r, 0, 1])
+            ids += 1; last = rng.random() < 0.5; events.append(["respond", ids, kk, last, rng.choice([0, 1])])
+            if not last:
+                ids += 1; events.append(["respond", ids, kk, rng.random() < 0.5, 1])      # second response: separate, confirmable, queued behind
+            if rng.random() < 0.5: events.append(["err", r])
+            yield {"mid0": rng.choice([0, 65534]), "token0": 0, "rand": [], "events": events, "closed": False}
+
     def gen_cases(self, tier, rng, n):
+        for c in self._piggyback_cases(rng, 12 if tier == "quick" else 400): yield "piggyback", c
         templates = list(self._templates()); rtemplates = list(self._refuse_templates())
         if tier == "quick":
             rng.shuffle(templates); templates = templates[:n // 5]
@@ -380,7 +459,8 @@ class C14(fw.Property):
         for t in rtemplates: yield "refuse-template", t
         rest = max(0, n - len(templates) - len(rtemplates))
         for k in range(rest):
-            if k % 4 == 3: yield "refuse", self._random_script(rng, refusal=True)
+            if k % 4 == 3: yield "refuse", self._random_script(rng, refusal=True, server=(k % 8 == 7))
+            elif k % 4 == 1: yield "server", self._random_script(rng, server=True)
             else: yield "script", self._random_script(rng)
         if tier == "thorough":
             for c in self._enum(5): yield "enum", c
@@ -404,6 +484,7 @@ class C14(fw.Property):
 
     # ---------------------------------------------------------------- model
     def model(self, stream, inp):
+        if stream == "piggyback": return None      # oracle-only: the piggy-back opportunity and its EMPTY_ACK_DELAY timer are not modelled
         evs = []
         for ev in inp["events"]:
             k = ev[0]
@@ -416,12 +497,14 @@ class C14(fw.Property):
             elif k == "adv": evs.append("Ev (Advance %s)" % gz(ev[1]))
             elif k == "cancel": evs.append("Ev (Cancel %s)" % gz(ev[1]))
             elif k == "refuse": evs.append("Refuse %s %s" % (gz(ev[1]), fw.gbool(ev[2])))
+            elif k == "serve": evs.append("Ev (Serve %s %s %s %s)" % tuple(gz(x) for x in ev[1:5]))
+            elif k == "respond": evs.append("Ev (Respond %s %s %s %s)" % (gz(ev[1]), gz(ev[2]), fw.gbool(ev[3]), gz(ev[4])))
             else: raise ValueError(k)
         return "rrun_view %s %s %s %s" % (gz(inp.get("mid0", 0)), gz(inp.get("token0", 0)), glist([gz(x) for x in inp.get("rand", [])]), glist(evs))
 
     def decode(self, stream, inp, p):
         steps_p, fin = p
-        def subtag(s): return ("q%d" if s.name == "Req" else "s%d") % s.args[0]
+        def subtag(s): return {"Req": "q%d", "Raw": "s%d", "Resp": "p%d"}[s.name] % s.args[0]
         def one(o):
             n, a = o.name, o.args
             if n == "Tx":
@@ -432,13 +515,14 @@ class C14(fw.Property):
             if n == "Fail": return ["fail", a[0], a[1].name]
             if n == "Cancelled": return ["cancelled", a[0]]
             if n == "Monitor": return ["monitor", a[0]]
+            if n == "Ended": return ["ended", a[0]]
             if n == "Crash": return ["crash", a[0].name]
             return None
         steps = [[x for x in (one(o) for o in st) if x is not None] for st in steps_p]
-        now, ex, bl, out, mid, tok = fin
+        now, ex, bl, out, mid, tok, inc = fin
         return {"steps": steps,
                 "final": {"now": now, "exchanges": sorted([a, b] for a, b in ex), "backlogs": sorted([r, [subtag(s) for s in q]] for r, q in bl),
-                          "outgoing": list(out), "next_mid": mid, "token": tok}}
+                          "outgoing": list(out), "next_mid": mid, "token": tok, "incoming": list(inc)}}
 
     # ---------------------------------------------------------------- oracle: NSTART rules on wire + completions
     def oracle(self, stream, inp, res):
@@ -450,6 +534,7 @@ class C14(fw.Property):
         live = {}            # q -> remote, requests not completed yet
         refusing = set()     # remotes for which the transport currently refuses every datagram (reported as an error for the endpoint)
         zombies = {}         # (r, mid) -> tag: exchanges that ended because their retransmission was refused
+        responders = {}      # k -> dict(r, tok, con): server-side responders whose pipe has not ended (as far as "ended" was observed)
         for i, (ev, outs) in enumerate(zip(inp["events"], res["steps"])):
             k = ev[0]; where = "step %d %r" % (i, ev)
             if k == "refuse":
@@ -477,11 +562,18 @@ class C14(fw.Property):
                     if not any(o[0] == "tx" and o[7] and o[1] == r and o[4] == mid for o in outs):
                         failed = r
                         if r in refusing: new_zombie = ((r, mid), open_[r][1])
-            elif k in ("req", "raw"): ev_remote = ev[2]
+            elif k in ("req", "raw", "serve"): ev_remote = ev[2]
             elif k == "cancel": ev_remote = live.get(ev[1])
+            elif k == "respond": ev_remote = responders[ev[2]]["r"] if ev[2] in responders else None
             expect_now = None
-            if k in ("req", "raw"):
-                tag = sub_tag(k, ev[1]); r = ev[2]; con = resolved(ev[3]) == CON
+            if k == "serve": responders[ev[1]] = dict(r=ev[2], tok=ev[3], con=ev[4] != NON)
+            if k == "serve_pb":        # the first response can be piggy-backed on the ACK: it is not confirmable, nothing may hold it back
+                ev_remote = ev[2]; responders[ev[1]] = dict(r=ev[2], tok=ev[3], con=False, pb=ev[4])
+            submission = None
+            if k in ("req", "raw"): submission = (ev[2], resolved(ev[3]) == CON)
+            elif k == "respond" and ev[2] in responders: submission = (responders[ev[2]]["r"], responders[ev[2]]["con"])
+            if submission is not None:
+                tag = sub_tag(k, ev[1]); r, con = submission
                 if tag in subs: return None     # ill-formed script (duplicate id): nothing to say
                 subs[tag] = dict(kind=k, n=ev[1], r=r, con=con, status="waiting")
                 if k == "req": live[ev[1]] = r
@@ -498,6 +590,8 @@ class C14(fw.Property):
             released = []
             for o in outs:
                 if o[0] == "crash":
+                    if o[1] == "TypeError" and k == "respond" and not ev[3] and failed is not None and failed == ev_remote and ev_remote in refusing:
+                        return ("C14:refused-notification:TypeError", "%s: the transport refused the notification; the responder's pipe ended inside its own event callback and Pipe._add_event raised TypeError out of add_response" % where)
                     if refused_release and o[1] == "KeyError":
                         return ("C14:refused-release:KeyError", "%s: the transport refused the release of held-back %s; KeyError escaped _continue_backlog / dispatch_message" % (where, waitq[acked][0]))
                     return ("C14:crash:" + str(o[1]), "%s: %s left the message layer" % (where, o[1]))
@@ -532,6 +626,11 @@ class C14(fw.Property):
                         sig = "C14:cross-remote-failure" if ev_remote != rq else "C14:unexpected-failure"
                         return (sig, "%s: request %s to %s failed with %s in a step that neither reset its exchange nor failed its endpoint" % (where, q, rq, cls))
                 elif o[0] in ("deliver", "cancelled"): live.pop(o[1], None)
+            if k == "respond" and ev[2] in responders and "pb" in responders[ev[2]]:
+                pbmid = responders[ev[2]].pop("pb"); responders[ev[2]]["con"] = True       # later responses are separate (CON)
+                hit = [o for o in outs if o[0] == "tx" and o[6] == sub_tag(k, ev[1])]
+                if hit and (hit[0][2] != ACK or hit[0][4] != pbmid):
+                    return ("C14:piggy-back-not-used", "%s: the response to CON request mid %d was sent as type %d mid %d instead of piggy-backed on the ACK" % (where, pbmid, hit[0][2], hit[0][4]))
             if expect_now is not None and subs[expect_now]["status"] != "sent":
                 sb = subs[expect_now]
                 return ("C14:non-delayed" if not sb["con"] else "C14:con-to-idle-remote-delayed",
@@ -546,6 +645,12 @@ class C14(fw.Property):
                         return ("C14:held-back-not-failed", "%s: endpoint %s failed but the request of held-back %s was not failed" % (where, failed, tag))
                     live.pop(sb["n"], None) if sb["kind"] == "req" else None
                 for q in failed_qs: live.pop(q, None)
+                ended_now = {o[1] for o in outs if o[0] == "ended"}
+                for kk, v in sorted(responders.items()):
+                    if v["r"] == failed and kk not in ended_now:
+                        return ("C14:held-back-response-not-stopped", "%s: endpoint %s failed but responder %d serving it was not stopped (its queued responses are gone, its handler keeps running)" % (where, failed, kk))
+            for o in outs:
+                if o[0] == "ended": responders.pop(o[1], None)
             for r, wq in waitq.items():
                 if wq and r not in open_:
                     return ("C14:forgotten", "%s: %s is held back for %s but no confirmable message is outstanding there" % (where, wq[0], r))
